@@ -167,6 +167,20 @@ pub fn band(region: &str) -> (u32, u32) {
     }
 }
 
+/// uplink frequency of default channel 0 (dynamic plans)
+pub fn default_ch0(region: &str) -> u32 {
+    match region {
+        "EU868" => 868_100_000,
+        "EU433" => 433_175_000,
+        "IN865" => 865_062_500,
+        "AS923_1" => 923_200_000,
+        "AS923_2" => 921_400_000,
+        "AS923_3" => 916_600_000,
+        "AS923_4" => 917_300_000,
+        _ => 0,
+    }
+}
+
 pub fn some_freq(rng: &mut Rng, region: &str) -> u32 {
     let (lo, hi) = band(region);
     match rng.below(10) {
